@@ -43,6 +43,36 @@ DIRECTIONS = {
         "and one caller is forgotten; a field changes meaning (inclusive/exclusive, before/after increment) at the producer but not at one "
         "consumer; a lock is split in two and one reader takes the wrong half. Each edit alone should keep the property (say so in meta.json "
         "if you verified that), both together break it only in a specific multi-step situation."),
+    "concurrency": (
+        "many other engineers already produced changes for this property in the obvious places. To get a DIFFERENT one, look at the "
+        "CONCURRENCY of the code the property is anchored in: dragonboat runs step, commit, apply and snapshot workers, tick and close "
+        "goroutines, transport send/receive goroutines and user goroutines in parallel. Look for a lock whose scope can be narrowed or "
+        "that can be dropped around a read 'because the value is only written by one goroutine', an RWMutex taken in the wrong mode, "
+        "a check-then-act sequence split across two critical sections, an atomic flag tested before instead of after the state it guards, "
+        "a notification sent before the state it announces is published, a double-buffered queue swapped at the wrong moment, a stopper / "
+        "stop channel consulted too late or too early, a reference count incremented after the object is handed over. The breakage must "
+        "be a semantic violation of the property under a specific interleaving of these goroutines (your demonstration may force the "
+        "interleaving with a slow state machine, a blocking hook in a test double, channels or short sleeps), not merely a data race "
+        "report."),
+    "reuse": (
+        "many other engineers already produced changes for this property in the obvious places. To get a DIFFERENT one, look at "
+        "PERFORMANCE OPTIMISATIONS around the code the property is anchored in and make one of them subtly wrong, or add a new plausible "
+        "one: buffer / slice reuse and aliasing (a slice handed out and later overwritten, append into spare capacity shared with a "
+        "caller, a zero-copy fast path that skips a check the slow path performs), object pooling (sync.Pool, RequestState reuse, entry "
+        "batches) with one field not reset, caches (LRU, last-batch, hard-state, max-index, term caches) with an invalidation narrowed, "
+        "batching / coalescing of several operations into one where one of them is dropped or reordered at a batch boundary, lazily "
+        "computed values that are not recomputed after the input changed, skipping 'redundant' writes, syncs or messages. The fast path "
+        "must keep ordinary runs working and break the property only for a specific size, boundary, sequence or timing."),
+    "recovery": (
+        "many other engineers already produced changes for this property in the obvious places. To get a DIFFERENT one, look at the code "
+        "that runs only when a replica STARTS, RESTARTS, REJOINS or RECOVERS: NodeHost.startShard / bootstrapShard and bootstrap records, "
+        "node.replayLog and the initial snapshot recovery, raft.Launch / newRaft / loadState / restore and becoming follower after restart, "
+        "LogReader initialisation (SetRange, ApplySnapshot, markerIndex), log store open paths (sharded Pebble open, Tan open / rebuildLog / "
+        "rebuildIndex / manifest replay), snapshotter.processOrphans and GetSnapshotFromLogDB, session and membership restore from a "
+        "snapshot, on-disk state machine Open index handling, a stopped replica started again in the same process, a replica started with "
+        "join=true, restarts that happen twice in a row. Break the property only for histories that include such a restart at a specific "
+        "moment (after a specific kind of entry, snapshot, compaction or membership change), so that a cluster that never restarts behaves "
+        "as before."),
 }
 
 PROMPT = """You are a skeptical senior Go engineer doing mutation-style robustness research on the open-source library lni/dragonboat (a multi-group Raft library in Go). Work ONLY inside your own scratch git worktree of the repository at {wt} (create it with: `git -C /repo worktree add {wt} HEAD`). Do NOT modify /repo itself, and do NOT read, list or use anything under /verif (it is off limits for this task). The sandbox is offline; use `export GOFLAGS=-mod=mod GOPROXY=off GOSUMDB=off GOTOOLCHAIN=local` for every go command. Put scratch files under {out}/ only.
